@@ -372,6 +372,25 @@ class LockWorld:
             return r
 
         comms.Worker.do = do
+        # the copy itself takes time (a large database: minutes); while it runs it must own the lock, however it got it
+        from dawgie.db.shelve.state import DBI
+
+        real_copy = _orig(DBI, 'copy')
+
+        def copy(dbi):
+            w.copy_running += 1
+            w.probes['copy_body_entered'] += 1
+            th = core.current_thread()
+            d = [0.0, 0.5, 4.0, 9.0][w.sim.ch.choose('copy.duration', 4)]
+            try:
+                if th is not None and d:
+                    w.probes['copy_body_takes_time'] += 1
+                    th.park(until=w.sim.now + d, label='copy.body')
+                return real_copy(dbi)
+            finally:
+                w.copy_running -= 1
+
+        DBI.copy = copy
         dawgie.security.connect = lambda address: LockSocket(w, address)
         import dawgie.context as ctx
         import dawgie.db.shelve.util as shutil_
@@ -415,6 +434,7 @@ class LockWorld:
         self.nunhandled = 0
         self.nloop = 0
         self.copy_holds = False
+        self.copy_running = 0
         for cl in self.clients:
             cl.reset()
         for cl in self.clients:
@@ -703,6 +723,9 @@ class LockWorld:
                         self.probes['grant_after_waiting'] += 1
                     if st.cl.crashed:
                         self.probes['grant_to_client_that_already_died_unnoticed'] += 1
+                    if self.copy_running and not getattr(st, 'loopback', False):
+                        self.violate('granted_during_copy', 'client',
+                                     f'{st.tag} is told the lock is its while a database copy is running (the copy must own the lock from before its first read to after its last)')
                     if getattr(st, 'loopback', False):
                         self.probes['copy_took_lock'] += 1
                         if st.busy:
@@ -800,6 +823,8 @@ class LockWorld:
                              f'(told at {st.granted_at if st.granted_at is not None else "never"})')
         L = bool(ctx.db_lock)
         # (1) at most one holder; the lock bit says the same
+        if self.copy_running and not L:
+            self.violate('copy_without_lock', 'lock_bit_clear', 'a database copy is running and the lock is free: any client may be granted it under the copy')
         if len(H) > 1:
             self.violate('two_holders', f'n={len(H)}', f'connections {self.tags(H)} own the lock at the same time')
         elif L != (len(H) == 1):
